@@ -1068,7 +1068,8 @@ def rule_signspan(ctx, rep, rid="R-C05-signspan"):
         toks = [(e.label, g.terminal(e.prim)) for e in sq.elems if g.terminal(e.prim) and g.terminal(e.prim)[0] == "tok" and not e.look]
         signs = [t for t in toks if t[1][1] in ("Minus", "Plus") and True]
         digits = [t for t in toks if t[1][1] in ("Digits",)]
-        mandatory_sign = [e for e in sq.elems if g.terminal(e.prim) and g.terminal(e.prim)[0] == "tok" and g.terminal(e.prim)[1] == "Minus" and not e.rep and not e.look]
+        # a sign that the action can be given: `-` (always there in its rule) or an optional `+` - written or not, it is part of the number
+        mandatory_sign = [e for e in sq.elems if g.terminal(e.prim) and g.terminal(e.prim)[0] == "tok" and g.terminal(e.prim)[1] in ("Minus", "Plus") and e.rep in (None, "?") and not e.look]
         if not mandatory_sign or not digits or len(toks) != 2:
             continue
         # the action closure(s) of this rule
@@ -1085,13 +1086,14 @@ def rule_signspan(ctx, rep, rid="R-C05-signspan"):
                 joined = False
                 for a in c.args[1:]:
                     p = op_place(a)
-                    d = b.single_def(b.root(p)[0]) if p is not None else None
-                    if d and d[0] == "call" and (d[2].callee or "").split("::")[-1] in ("join", "join2", "range"):
-                        joined = True
+                    # (for an optional sign the span has two definitions: joined when the sign is there, the digits alone when it is not)
+                    for d in (b.defs.get(b.root(p)[0], []) if p is not None else []):
+                        if d[0] == "call" and (d[2].callee or "").split("::")[-1] in ("join", "join2", "range"):
+                            joined = True
                 if joined:
                     r.ok(inst, where, "joined from the sign and the digits")
                 else:
-                    r.finding(inst + "|not-from-sign-and-digits", where, "the number is built from `-` and digits but the constructor is given %s: a label on it leaves out the sign"
+                    r.finding(inst + "|not-from-sign-and-digits", where, "the number is built from a sign and digits but the constructor is given %s: a label on it leaves out the sign"
                               % ("the span of the digits alone" if len(c.args) > 1 else "no span at all"))
     if not n:
         rep.error(rid, "no grammar action builds a SignedInteger from a mandatory sign token and a digits token")
